@@ -1,6 +1,40 @@
 from . import M
 D = 'flipjump/interpreter/io_devices/'
 MUTANTS = [
+    M('C17', 'keyboard queue bound at class level: one deque for every device (seed C17_7)', D + 'KeyboardIO.py',
+      """    def __init__(self, event_source: KeyEventSource):
+        self.event_source = event_source
+
+        self.tic = 0
+        self._pending_input_bits: Deque[bool] = deque()
+""", """    tic: int = 0
+    _pending_input_bits: Deque[bool] = deque()
+
+    def __init__(self, event_source: KeyEventSource):
+        self.event_source = event_source
+""", 'C17.INSTANCE-STATE'),
+    M('C17', 'EQ keyboard queue declared at class level, created per instance in __init__', D + 'KeyboardIO.py',
+      """    def __init__(self, event_source: KeyEventSource):
+        self.event_source = event_source
+
+        self.tic = 0
+        self._pending_input_bits: Deque[bool] = deque()
+""", """    tic: int = 0
+    _pending_input_bits: Deque[bool] = deque()
+
+    def __init__(self, event_source: KeyEventSource):
+        self.event_source = event_source
+
+        self._pending_input_bits = deque()
+""", None),
+    M('C17', 'EQ keyboard queue only annotated at class level', D + 'KeyboardIO.py',
+      """    def __init__(self, event_source: KeyEventSource):
+        self.event_source = event_source
+""", """    _pending_input_bits: Deque[bool]
+
+    def __init__(self, event_source: KeyEventSource):
+        self.event_source = event_source
+""", None),
     M('C17', 'FixedIO packs msb-first', D + 'FixedIO.py', "        self.current_output_byte |= bit << self.bits_to_write_in_output_byte\n",
       "        self.current_output_byte |= bit << (7 - self.bits_to_write_in_output_byte)\n", 'C17.PACK'),
     M('C17', 'StandardIO flushes at 7 bits', D + 'StandardIO.py', "        if 8 == self.bits_to_write_in_output_byte:", "        if 7 == self.bits_to_write_in_output_byte:", 'C17.PACK'),
